@@ -16,7 +16,11 @@ OPS = [(r" < ", " <= "), (r" <= ", " < "), (r" > ", " >= "), (r" >= ", " > "), (
 
 def sh(cmd, cwd=None, env=None, timeout=3000):
     e = dict(os.environ); e.update(env or {})
-    p = subprocess.run(cmd, cwd=cwd, env=e, capture_output=True, text=True, shell=isinstance(cmd, str), timeout=timeout)
+    try:
+        p = subprocess.run(cmd, cwd=cwd, env=e, capture_output=True, text=True, shell=isinstance(cmd, str), timeout=timeout)
+    except subprocess.TimeoutExpired:
+        subprocess.run("pkill -f 'mutsweep-.*/target/debug/deps/mrecordlog' ; true", shell=True)
+        return 124, "timeout"
     return p.returncode, p.stdout + p.stderr
 
 
@@ -58,7 +62,7 @@ def main():
         open(path, "w").write("\n".join(lines))
         desc = "%s:%d `%s` -> `%s`: %s" % (f, i + 1, pat.replace("\\", ""), rep, lines[i].strip()[:90])
         rc, out = sh("cargo build --offline --quiet 2>&1 | tail -3", cwd=wt, env=env)
-        rc, out = sh("cargo test --offline --quiet 2>&1 | grep -E '^test result|error' | head -5", cwd=wt, env=env, timeout=1500)
+        rc, out = sh("cargo test --offline --quiet 2>&1 | grep -E '^test result|error' | head -5", cwd=wt, env=env, timeout=600)
         ok = "test result: ok. 66 passed" in out
         if not ok:
             open(path, "w").write(orig)
